@@ -431,11 +431,11 @@ func nativeReplay(r Run, replayPath string, p *sym.Program) (bool, string) {
 	// generated test driver
 	var sb strings.Builder
 	pkgName := filepath.Base(r.Pkg)
-	sb.WriteString("//go:build verif\n\npackage " + pkgName + "\n\nimport (\n\t\"fmt\"\n\t\"os\"\n\t\"testing\"\n")
+	sb.WriteString("//go:build verif\n\npackage " + pkgName + "\n\nimport (\n\t\"fmt\"\n\t\"os\"\n\t\"runtime\"\n\t\"testing\"\n\t\"time\"\n")
 	if r.Synctest {
 		sb.WriteString("\t\"testing/synctest\"\n")
 	}
-	sb.WriteString(")\n\nvar vHarnessTable = map[string]func(){\n")
+	sb.WriteString(")\n\nvar (\n\t_ = runtime.Stack\n\t_ = time.Now\n)\n\nvar vHarnessTable = map[string]func(){\n")
 	names := p.Harnesses("VH_")
 	sort.Strings(names)
 	for _, n := range names {
@@ -463,9 +463,38 @@ func nativeReplay(r Run, replayPath string, p *sym.Program) (bool, string) {
 	}
 `
 	sb.WriteString(body)
-	if r.Synctest {
+	var kindDoc struct{ Kind string }
+	if b, err := os.ReadFile(replayPath); err == nil {
+		json.Unmarshal(b, &kindDoc)
+	}
+	stress := !r.Synctest && (kindDoc.Kind == "deadlock" || kindDoc.Kind == "race")
+	switch {
+	case r.Synctest:
 		sb.WriteString("\tvSynctest = true\n\tsynctest.Run(run)\n")
-	} else {
+	case stress:
+		// A schedule-dependent counterexample (lock-order deadlock, data race) of a
+		// wall-clock harness: the native scheduler cannot be told which
+		// interleaving to take, so the harness is repeated on the same inputs
+		// for a fixed time budget, with a watchdog per iteration.
+		sb.WriteString(`	end := time.Now().Add(40 * time.Second)
+	for it := 0; time.Now().Before(end); it++ {
+		vResetReplay()
+		done := make(chan struct{})
+		go func() { defer close(done); run() }()
+		select {
+		case <-done:
+		case <-time.After(10 * time.Second):
+			buf := make([]byte, 1<<16)
+			buf = buf[:runtime.Stack(buf, true)]
+			fmt.Printf("REPLAY-DEADLOCK: iteration %d did not finish within 10 s\n%s\n", it, buf)
+			t.FailNow()
+		}
+		if t.Failed() {
+			return
+		}
+	}
+`)
+	default:
 		sb.WriteString("\trun()\n")
 	}
 	sb.WriteString("\tfor _, f := range vFailures {\n\t\tfmt.Printf(\"REPLAY-FAIL: %s\\n\", f)\n\t\tt.Fail()\n\t}\n}\n")
@@ -475,10 +504,6 @@ func nativeReplay(r Run, replayPath string, p *sym.Program) (bool, string) {
 	ovb, _ := json.Marshal(map[string]interface{}{"Replace": ov})
 	ovPath := filepath.Join(tmp, "overlay.json")
 	os.WriteFile(ovPath, ovb, 0o644)
-	var kindDoc struct{ Kind string }
-	if b, err := os.ReadFile(replayPath); err == nil {
-		json.Unmarshal(b, &kindDoc)
-	}
 	tmo := "300s"
 	if r.Synctest {
 		tmo = "90s" // virtual time: a replay that needs longer is hung (which is what a hang counterexample looks like)
@@ -487,7 +512,10 @@ func nativeReplay(r Run, replayPath string, p *sym.Program) (bool, string) {
 	if kindDoc.Kind == "race" {
 		// data races are confirmed by the native race detector (a few repetitions:
 		// it only sees the interleavings that actually happen)
-		goArgs = append(goArgs, "-race", "-count=5")
+		goArgs = append(goArgs, "-race")
+		if r.Synctest {
+			goArgs = append(goArgs, "-count=5")
+		}
 	}
 	goArgs = append(goArgs, ".")
 	cmd := exec.Command("go", goArgs...)
@@ -512,7 +540,7 @@ func nativeReplay(r Run, replayPath string, p *sym.Program) (bool, string) {
 		// differ from the engine's - any assertion of the harness on this input
 		rep = strings.Contains(s, "REPLAY-FAIL: "+doc.Msg) || crash || (r.Synctest && strings.Contains(s, "REPLAY-FAIL: "))
 	case "deadlock":
-		rep = strings.Contains(s, "deadlock") || strings.Contains(s, "REPLAY-FAIL") || strings.Contains(s, "test timed out") || strings.Contains(s, "panic: test timed out")
+		rep = strings.Contains(s, "deadlock") || strings.Contains(s, "REPLAY-DEADLOCK") || strings.Contains(s, "REPLAY-FAIL") || strings.Contains(s, "test timed out") || strings.Contains(s, "panic: test timed out")
 	default:
 		rep = strings.Contains(s, "REPLAY-PANIC") || strings.Contains(s, "panic:") || strings.Contains(s, "fatal error:") || strings.Contains(s, "DATA RACE")
 	}
